@@ -26,6 +26,7 @@ def plan(ctx):
     seqs = [("life%d" % i, gen_proc.lifecycle_history(rng)) for i in range(n)]
     seqs += [("h%d" % i, gen_proc.history(rng, profile=rng.choice(["lifecycle", "mixed"]))) for i in range(n // 2)]
     seqs += [("ov%d" % i, gen_proc.overlap_history(rng)) for i in range(n // 2)]
+    seqs += [("applimit%d" % i, gen_proc.app_limit_history(rng)) for i in range(1 if tier == "quick" else 4)]
     return [("corpus", corpus(ID)), ("gen", seqs)]
 
 
